@@ -2098,20 +2098,25 @@ func (r *stack) revealDescend(inner Stack, idx int) (err error) {
 		case 1:
 			// descend into inner slice #0
 			child, _, _ := inner.index(0)
-			// a nil *Stack or *Condition satisfies Interface
-			// as well, but none of its methods can be called
-			_, cv, _ := derefPtr(assertReflect(child))
-			if assert, ok := child.(Interface); ok && cv.IsValid() {
-				if !assert.IsParen() && !inner.IsParen() {
-					err = r.revealSingle(0)
-					updated = child
-				}
+			// only an initialised Stack or Condition (native,
+			// alias or pointer) may take its envelope's place
+			var nests, paren bool
+			if cs, ok := stackTypeAliasConverter(child); ok {
+				nests, paren = true, cs.IsParen()
+			} else if cc, ok := conditionTypeAliasConverter(child); ok {
+				nests, paren = true, cc.IsParen()
+			}
+			if nests && !paren && !inner.IsParen() {
+				err = r.revealSingle(0)
+				updated = child
 			}
 		default:
 			// begin new top-level reveal of inner
-			// as a whole, scanning all +2 slices
+			// as a whole, scanning all +2 slices.
+			// inner is revealed in place: whatever
+			// holds it at idx (the instance itself,
+			// an alias, a pointer) stays what it is.
 			err = inner.reveal()
-			updated = inner
 		}
 	}
 
@@ -2155,10 +2160,10 @@ func (r *stack) revealSingle(idx int) (err error) {
 			// ... If condition expression is a stack ...
 			if inner, iok := stackTypeAliasConverter(c.Expression()); iok {
 				// ... recurse into said stack expression
-				if err = inner.reveal(); err == nil {
-					// update the condition w/ new value
-					c.SetExpression(inner)
-				}
+				// (revealed in place: the expression,
+				// be it an alias or a pointer, stays
+				// what it is)
+				err = inner.reveal()
 			}
 		} else if inner, iok := stackTypeAliasConverter(slice); iok {
 			// If a stack then recurse
